@@ -41,7 +41,7 @@ static void child(const std::string& line, const char* outpath) {
         if (!g_started || objid != rc_id || kind != vsched::K_RMW) return;
         g_ev.push_back(std::string("{\"e\":\"") + (after > before ? "inc" : "dec") + "\",\"t\":" + std::to_string(tid) + ",\"before\":" + std::to_string(before) + ",\"after\":" + std::to_string(after) + "}");
     });
-    vsched::set_abort_handler([&](vsched::Result& r) { write_out(outpath, r); _exit(0); });
+    vsched::set_abort_handler([&](vsched::Result& r) { write_out(outpath, r); { vf::cov_flush(); _exit(0); } });
     auto res = vsched::run([&] {
         rc_id = vsched::Runtime::new_object_id() + 1;
         Obj* o = new Obj;
@@ -57,7 +57,7 @@ static void child(const std::string& line, const char* outpath) {
         for (auto& x : th) x.join();
     }, cfg);
     write_out(outpath, res);
-    _exit(0);
+    { vf::cov_flush(); _exit(0); }
 }
 
 int main(int argc, char** argv) {
